@@ -65,7 +65,7 @@ _text_alpha = st.one_of(
 
 def text_values(nul_ok):
     if nul_ok:
-        return st.one_of(_text_alpha, st.sampled_from(["\x00", "a\x00b"]))
+        return st.one_of(_text_alpha, st.sampled_from(["\x00", "a\x00b", "a\x00", "\x00", "z\x00\x00"]))
     return _text_alpha.filter(lambda s: "\x00" not in s)
 
 
